@@ -9,6 +9,7 @@
 //! patterns — is rejected. Shapes are enumerated concretely (rule 1); all AST
 //! values live in `ManuallyDrop` (rule 2); error text is stubbed.
 use super::*;
+use crate::ast::{BeliefTarget, Command, MetaCommand, PredTerm};
 use core::mem::ManuallyDrop;
 
 pub(super) fn stub_format(_args: core::fmt::Arguments<'_>) -> String {
